@@ -31,7 +31,7 @@ LONG_RUNS = [
 def _long_run(args):
     text, want = args
     w = world.World(world.POP_THREE)
-    res = w.run_script(text, cap=5000000)
+    res = w.run_script(text, cap=200000000)      # the harness cap must never be what ends these runs
     outs = [e[1] for e in res.trace if e[0] == 'out']
     if not res.accepted or res.abort or res.raised or res.capped or outs != [want]:
         return ('long-run-goes-wrong', text, 'accepted=%r abort=%r raised=%r capped=%r printed %r, expected %r' % (
